@@ -13,6 +13,7 @@ import (
 	"encoding/hex"
 	"encoding/json"
 	"errors"
+	"math"
 	"fmt"
 	"io"
 	"os"
@@ -542,6 +543,28 @@ type cgate struct {
 	res  string
 	code int
 	msg  string
+	// how the handler fails (code != 0): "" a *jrpc2.Error{code, msg}; "plain" an error that is not an ErrCoder;
+	// "nan" / "chan" it returns a VALUE encoding/json cannot encode and no error; "panic" it panics.
+	// The last four are failures with the code of errors that carry none (-32098) and, as message, the
+	// text of the error / of encoding/json's refusal / "panic in callback handler: " + the value.
+	how string
+}
+
+const cbSystemError = -32098
+
+// cbFailure builds a callback outcome that fails in the given way; code and msg are what the server is to see.
+func cbFailure(how string) cgate {
+	switch how {
+	case "plain":
+		return cgate{code: cbSystemError, msg: "callback says no, plainly", how: how}
+	case "nan":
+		return cgate{code: cbSystemError, msg: "json: unsupported value: NaN", how: how}
+	case "chan":
+		return cgate{code: cbSystemError, msg: "json: unsupported type: chan int", how: how}
+	case "panic":
+		return cgate{code: cbSystemError, msg: "panic in callback handler: boom", how: how}
+	}
+	return cgate{code: -32000, msg: "callback says no"}
 }
 
 type cliOp struct {
@@ -676,10 +699,15 @@ func newCliRun(cfg cliConfig, out *bufio.Writer) *cliRun {
 func (r *cliRun) start() {
 	r.ch = newCchan(r.log, r.cfg.unblock)
 	opts := &jrpc2.ClientOptions{
-		OnStop: func(_ *jrpc2.Client, err error) {
+		OnStop: func(c *jrpc2.Client, err error) {
 			r.mu.Lock()
 			r.stopCalls++
 			r.mu.Unlock()
+			// the hook may use the client it is given (whoever caused the stop: the reader or Close): the client
+			// is stopped by now and its lock is free
+			if !c.IsStopped() {
+				r.fault("the client given to OnStop is not stopped")
+			}
 			r.log.obs("onstop\t%s", causeOf(err))
 		},
 	}
@@ -711,7 +739,16 @@ func (r *cliRun) start() {
 			r.log.obs("cbstart\t%s\t%s\t%s", chex(req.ID()), chex(req.Method()), chex(p))
 			select {
 			case m := <-g:
-				if m.code != 0 {
+				switch {
+				case m.how == "plain":
+					return nil, errors.New(m.msg)
+				case m.how == "nan":
+					return math.NaN(), nil
+				case m.how == "chan":
+					return make(chan int), nil
+				case m.how == "panic":
+					panic("boom")
+				case m.code != 0:
 					return nil, &jrpc2.Error{Code: jrpc2.Code(m.code), Message: m.msg}
 				}
 				return json.RawMessage(m.res), nil
@@ -1110,6 +1147,10 @@ func runCliScenario(t *testing.T, fam string, seed uint64, idx int, out *bufio.W
 		}
 		out.Flush()
 		fmt.Fprintf(os.Stderr, "watchdog: scenario %s %d %d hangs\n", fam, seed, idx)
+		if os.Getenv("VERIF_DUMP") != "" {
+			buf := make([]byte, 1<<20)
+			os.Stderr.Write(buf[:runtime.Stack(buf, true)])
+		}
 		os.Exit(4)
 	})
 	defer wd.Stop()
